@@ -294,3 +294,94 @@ theorem type_cell_wide {g : Grid} (hu : g.size.cols ≤ 65535) (a : Attrs) (f w 
       rw [this, vF, v1]
 
 end Vt.Recv
+
+/-! ### re-typing a wide character over itself (the cursor fix-up of a pending-wrap cursor) -/
+namespace Vt.Recv
+open Vt Vt.C19
+set_option linter.unusedSimpArgs false
+
+variable (W : Nat → Option Nat)
+
+/-- a character of width ≥ 2 typed over the first half of a wide character: the old second half becomes a
+space, then the new second half — the two cells end up as after typing on blank cells -/
+theorem type_wide_over {g : Grid} (hu : g.size.cols ≤ 65535) (a : Attrs) (c w : Nat) (row : Row) (cell0 cell1 : Cell)
+    (hw : (W c).getD 1 = w) (hw2 : 2 ≤ w) (hnc : ¬ (W c = none ∧ c < 256))
+    (hcol : g.pos.col + w ≤ g.size.cols) (hrow : g.rows[g.pos.row]? = some row)
+    (hcell0 : row.cells[g.pos.col]? = some cell0) (h0w : cell0.wide = true) (h0c : cell0.cont = false)
+    (hcell1 : row.cells[g.pos.col + 1]? = some cell1) (hW32 : W 32 = some 1) :
+    ∃ cell' sp, cell0.set W c a = .ok cell' ∧ cell1.set W 32 a = .ok sp ∧
+      g.text W a c = .ok (typed g row ((row.cells.set g.pos.col cell').set (g.pos.col + 1) (contCell sp))
+        (g.pos.col + 2)) := by
+  have hl : (Utf8.encode c).length ≤ 22 := by have := C05.encode_length_le c; omega
+  have hl32 : (Utf8.encode 32).length ≤ 22 := by have := C05.encode_length_le 32; omega
+  refine ⟨_, _, C05.cell_set_spec W cell0 c a hl, C05.cell_set_spec W cell1 32 a hl32, ?_⟩
+  have h1' : ((W c).isNone && decide (c < 256)) = false := by
+    cases hn : (W c).isNone <;> simp_all
+  have hcw : w ≤ g.size.cols := by omega
+  have hlim : ¬ g.pos.col > g.size.cols - w := by omega
+  have hw0 : (w == 0) = false := by rw [beq_eq_false_iff_ne]; omega
+  have hgt : w > 1 := by omega
+  have hi0 := getElem?_lt hcell0
+  have hi1 := getElem?_lt hcell1
+  have hspw : (decide ((W 32).getD 1 > 1)) = false := by rw [hW32]; rfl
+  simp only [Grid.text, h1', Bool.false_eq_true, ↓reduceIte, hw, show ¬ (w > g.size.cols) by omega,
+    Grid.wrapDecision, subM_ok hcw, ok_bind, hlim, pure_bind', pure_eq_ok, Grid.colWrap, hw0, Grid.textWide,
+    Grid.modifyCurrentRow, modifyM, hrow, Grid.textWideRow, getM, hcell0, Cell.isWideContinuation, h0c,
+    Cell.isWide, h0w, hcell1, C05.cell_set_spec W cell1 32 a hl32, List.getElem?_set, hi0, hi1,
+    show ¬ (g.pos.col + 1 = g.pos.col) by omega, show ¬ (g.pos.col = g.pos.col + 1) by omega,
+    C05.cell_set_spec W cell0 c a hl, hgt, List.length_set, hspw]
+  have e1 : satAddU16 (satAddU16 g.pos.col 1) 1 = g.pos.col + 2 := by
+    simp only [satAddU16, U16_MAX]; omega
+  simp [typed, contCell, Grid.colInc, e1, hspw]
+  rw [List.set_comm _ _ (by omega : g.pos.col + 1 ≠ g.pos.col), List.set_set]
+
+theorem view_contCell' (c : Cell) : view (contCell c) = ⟨0, false, true, Attrs.default, []⟩ := by
+  simp [view, contCell, Cell.clear, Cell.setWideContinuation]
+
+/-- **a wide cell re-typed over itself** -/
+theorem type_cell_wide_over {g : Grid} (hu : g.size.cols ≤ 65535) (a : Attrs) (f w : Nat) (zs : List Nat) (row : Row)
+    (cell0 cell1 : Cell) (hw : (W f).getD 1 = w) (hw2 : 2 ≤ w) (hnc : ¬ (W f = none ∧ f < 256))
+    (hz : ∀ z ∈ zs, W z = some 0)
+    (hcol : g.pos.col + w ≤ g.size.cols) (hrow : g.rows[g.pos.row]? = some row)
+    (hcell0 : row.cells[g.pos.col]? = some cell0) (h0w : cell0.wide = true) (h0c : cell0.cont = false)
+    (h22 : cell0.contents.length = 22)
+    (hcell1 : row.cells[g.pos.col + 1]? = some cell1) (h221 : cell1.contents.length = 22) (hW32 : W 32 = some 1)
+    (hp : prefixOk (Utf8.encode f).length zs) :
+    ∃ cellF cc, typeChars W a (f :: zs) g =
+        .ok (typed g row ((row.cells.set g.pos.col cellF).set (g.pos.col + 1) cc) (g.pos.col + 2)) ∧
+      view cellF = typedView W a f zs ∧ cellF.contents.length = 22 ∧
+      view cc = ⟨0, false, true, Attrs.default, []⟩ ∧ cc.contents.length = 22 := by
+  obtain ⟨c1, es, l1, v1, k1, w1, ct1, a1⟩ := set_facts W cell0 f a h22
+  obtain ⟨sp0, esp, _, _, ksp, _, _, _⟩ := set_facts W cell1 32 a h221
+  obtain ⟨c1', sp, es', esp', e1⟩ := type_wide_over W hu a f w row cell0 cell1 hw hw2 hnc hcol hrow hcell0 h0w h0c hcell1 hW32
+  have : c1' = c1 := by rw [es] at es'; exact (Except.ok.inj es').symm
+  subst this
+  have : sp = sp0 := by rw [esp] at esp'; exact (Except.ok.inj esp').symm
+  subst this
+  have hi0 := getElem?_lt hcell0
+  have hi1 := getElem?_lt hcell1
+  have hrl := getElem?_lt hrow
+  have hl := encode_len f
+  obtain ⟨tc', e2, e3⟩ := type_zeros W a zs
+    (typed g row ((row.cells.set g.pos.col c1').set (g.pos.col + 1) (contCell sp)) (g.pos.col + 2))
+    { row with cells := (row.cells.set g.pos.col c1').set (g.pos.col + 1) (contCell sp) } g.pos.col c1' hz
+    (by simp [typed]) (by simp [typed]; omega) (by simp [typed, hrl])
+    ⟨contCell sp, by simp [typed, hi1], Or.inl ⟨by simp [contCell, Cell.setWideContinuation], by simp [typed], by simp [typed]⟩⟩
+    (by simp [hi0, List.getElem?_set]) k1 (by omega) (by rw [l1]; exact hp)
+  obtain ⟨tF, eF, lF, vF, kF, wF, ctF, aF⟩ := appendAll_facts zs c1' k1 (by omega) (by rw [l1]; exact hp)
+  have : tF = tc' := by rw [e2] at eF; exact (Except.ok.inj eF).symm
+  subst this
+  refine ⟨tF, contCell sp, ?_, ?_, kF, view_contCell' sp, ?_⟩
+  · rw [typeChars_cons, e1]
+    simp only [ok_bind, e3]
+    simp only [withCell, typed, List.set_set]
+    congr 2
+    rw [List.set_comm _ _ (by omega : g.pos.col + 1 ≠ g.pos.col), List.set_set]
+  · simp only [view, typedView, View.mk.injEq]
+    refine ⟨?_, by rw [wF, w1], by rw [ctF, ct1], by rw [aF, a1], ?_⟩
+    · rw [lF, l1]; simp
+    · have : tF.contents.take tF.len = liveOf tF := rfl
+      rw [this, vF, v1]
+  · simp [contCell, Cell.clear, Cell.setWideContinuation, ksp]
+
+end Vt.Recv
